@@ -183,14 +183,18 @@ Fixpoint acl_update (p : platform) (f : list ace -> list ace) (m : acl_map) : ac
   | [] => [(p, f [])]                                   (* entry(p).or_default() *)
   | (q, l) :: r => if platform_eqb p q then (q, f l) :: r else (q, l) :: acl_update p f r
   end.
+(* the edit of the general platform's list: -m first, then -x *)
+Definition acl_edit (modify remove : option aclspec) (l : list ace) : list ace :=
+  let l := match modify with Some s => acl_modify s l | None => l end in
+  match remove with Some s => filter (fun a => negb (spec_match s a)) l | None => l end.
+(* nothing to add and no general list to remove from: the entry is returned as it is *)
+Definition acl_skip (modify : option aclspec) (m : acl_map) : bool :=
+  match modify with None => negb (acl_has General m) | Some _ => false end.
 Definition cmd_acl (modify remove : option aclspec) (e : lentry) : lentry :=
   match acl_parse (le_extras e) with
   | Ok m =>
-    if match modify with None => negb (acl_has General m) | Some _ => false end then e else
-    let f l :=
-      let l := match modify with Some s => acl_modify s l | None => l end in
-      match remove with Some s => filter (fun a => negb (spec_match s a)) l | None => l end in
-    with_extras e (acl_chunks (acl_update General f m) ++ non_acl (le_extras e))
+    if acl_skip modify m then e else
+    with_extras e (acl_chunks (acl_update General (acl_edit modify remove) m) ++ non_acl (le_extras e))
   | _ => e                                               (* unreadable ACL: the entry is left alone *)
   end.
 
